@@ -67,6 +67,62 @@ def _check_cases(cases: list[dict]) -> list[dict]:
 				fail('conformance', f'break_last_block[{pair}]', text, f'code {real} vs spec-as-coded {exp["coded"]}')
 			if real != exp['intended']:
 				fail('property', 'LastBlockRespectsNesting', text, f'break_last_block({text!r}, {pair!r}) = {real}, nesting-aware result is {exp["intended"]}')
+		# parse / parse_bracket / parse_pair: every entry is a balanced piece, every block one whole group (the nesting
+		# level after k characters and the quoted positions come from the specification: BlockScan.Levels / Quoted)
+		lv, qd = case['levels'], case['quoted']
+		for pair in ('()', '[]', '{}', '<>'):
+			own = [i for i in range(len(text)) if text[i] == pair[0] and not qd[i]]
+			if not own:
+				continue
+			nested = any(j > i and min(lv[i + 1:j + 1]) >= lv[i] + 1 for i in own for j in own)
+			hidden = any(qd[i] and text[i] in pair for i in range(len(text))) or any(lv[i] >= 1 for i in own)
+			pshape = 'nested-own-block' if nested else 'hidden-own-bracket' if hidden else 'plain'
+			for d in (',', ':', '=', ' ', ''):
+				try:
+					root = BlockParser.parse(text, pair, d)
+				except IndexError:
+					if any(lv[i] == 0 for i in own):
+						fail('property', 'ParseEntries', text, f'parse({text!r}, {pair!r}, {d!r}) finds no entry although a group of the pair stands at top level')
+						failures[-1]['shape'] = pshape
+					continue
+				except Exception as e:
+					fail('property', 'ParseEntries', text, f'parse({text!r}, {pair!r}, {d!r}) raised {type(e).__name__}')
+					failures[-1]['shape'] = pshape
+					continue
+				entries = [root, *root.unders()]
+				texts = set()
+				blocks = []
+				bad = None
+				for e in entries:
+					piece = text[e.begin:e.end]
+					texts.add(piece)
+					if not (0 <= e.begin <= e.end <= len(text) and lv[e.begin] == lv[e.end] and min(lv[e.begin:e.end + 1]) >= lv[e.begin]):
+						bad = bad or f'entry {piece!r} ({e.begin}..{e.end}) is not a balanced piece'
+					if e.kind.name == 'Block':
+						o = text.find(pair[0], e.begin)
+						blocks.append(text[o:e.end])
+						if not (0 <= o and e.end - o >= 2 and e.end <= len(text) and lv[o] == lv[e.end] and min(lv[o + 1:e.end]) >= lv[o] + 1):
+							bad = bad or f'block {text[o:e.end]!r} is not one whole group'
+				if bad:
+					fail('property', 'ParseEntries', text, f'parse({text!r}, {pair!r}, {d!r}): {bad}')
+					failures[-1]['shape'] = pshape
+					continue
+				if d == '':
+					try:
+						got = BlockParser.parse_bracket(text, pair)
+					except Exception as e:
+						got = [f'!{type(e).__name__}']
+					if got != blocks:
+						fail('property', 'ParseBracketIsBlocks', text, f'parse_bracket({text!r}, {pair!r}) = {got}, the blocks of the entry tree are {blocks}')
+						failures[-1]['shape'] = pshape
+				else:
+					try:
+						pieces = [x for kv in BlockParser.parse_pair(text, pair, d) for x in kv]
+					except Exception as e:
+						pieces = [f'!{type(e).__name__}']
+					if not set(pieces) <= texts:
+						fail('property', 'ParsePairIsEntries', text, f'parse_pair({text!r}, {pair!r}, {d!r}) = {pieces}: not pieces of the entry tree {sorted(texts)}')
+						failures[-1]['shape'] = pshape
 		# decorator: path(args) decomposes into path and the top-level comma pieces, which reassemble
 		if len(text) <= 24:
 			pieces = case['split'][',']['intended']
@@ -210,6 +266,7 @@ def run(ctx: Ctx) -> int:
 		'traces_validated_against_impl': len(calls),
 		'fragments_replayed_on_impl': len(cases),
 		'helper_evaluations': len(cases) * 8 + len(params),
+		'parse_entry_trees_checked': 'every fragment x 4 pairs x 5 delimiters (pairs with a group in the fragment)',
 		'param_cases': len(params),
 		'real_call_arguments_recorded': len(calls),
 		'real_call_arguments_in_domain': balanced,
